@@ -39,6 +39,8 @@ type renderCase struct {
 	Query      string          `json:"raw_query,omitempty"`                                         // the request's query string: nothing in it is an argument of the render
 	CtxDone    bool            `json:"request_context_done_before_rendering,omitempty"`             // the rendering handler cancels the request's context first (a time-limit pattern that reports 504 through the renderer): the render is still sent
 	Counting   bool            `json:"value_counts_its_encodings,omitempty"`                        // json | xml: the value's marshaler reports how many times it has been asked: the body is the first encoding
+	ReqHdr     [][2]string     `json:"request_headers,omitempty"`                                   // range / conditional / negotiation headers of the request: a render sends what it was given, whatever the request would have preferred
+	Get        bool            `json:"get_request,omitempty"`                                       // the route is registered for GET and asked with GET (default: POST)
 	Head       bool            `json:"head_request,omitempty"`                                      // the route is registered for HEAD and asked with HEAD: same status and header, no body, and the render ends like any other
 	EnvMade    string          `json:"env_when_renderer_was_created,omitempty"`                     // process environment while Renderer(...) was called ("" = untouched; serial cases only)
 	EnvServed  string          `json:"env_when_request_was_served,omitempty"`                       // process environment while the request was served: what is rendered depends on neither
@@ -122,6 +124,13 @@ func xmlSafe(s string) string {
 	}, s)
 }
 
+var c17ReqHeaders = [][2]string{
+	{"Range", "bytes=0-3"}, {"Range", "bytes=0-0,2-3"}, {"Range", "bytes=100000-"}, {"Range", "pages=1"}, {"If-Range", "\"x\""},
+	{"If-None-Match", "*"}, {"If-None-Match", "\"abc\""}, {"If-Match", "\"nope\""}, {"If-Modified-Since", "Fri, 01 Jan 2100 00:00:00 GMT"}, {"If-Unmodified-Since", "Thu, 01 Jan 1970 00:00:00 GMT"},
+	{"Accept", "application/xml"}, {"Accept", "text/plain;q=1, */*;q=0"}, {"Accept-Encoding", "gzip, br"}, {"Accept-Charset", "iso-8859-1"}, {"Accept-Language", "de"},
+	{"Content-Type", "application/xml"}, {"Prefer", "return=minimal"}, {"Expect", "100-continue"}, {"TE", "trailers"}, {"Connection", "close"}, {"Cache-Control", "no-cache"}, {"X-Requested-With", "XMLHttpRequest"},
+}
+
 func genRenderCase(rng *rand.Rand) *renderCase {
 	c := &renderCase{
 		Kind:       []string{"json", "xml", "binary", "text"}[rng.Intn(4)],
@@ -133,6 +142,7 @@ func genRenderCase(rng *rand.Rand) *renderCase {
 		Where:      []string{"app", "group", "route"}[rng.Intn(3)],
 		Overlap:    rng.Intn(5) == 0,
 		Head:       rng.Intn(6) == 0,
+		Get:        rng.Intn(3) == 0,
 		PresetCT:   rng.Intn(4) == 0,
 		Spread:     rng.Intn(6) == 0,
 		EditCT:     rng.Intn(8) == 0,
@@ -143,6 +153,11 @@ func genRenderCase(rng *rand.Rand) *renderCase {
 	}
 	if c.Overlap {
 		c.Head = false // the overlapping request is recognised by its body
+	}
+	if rng.Intn(4) == 0 {
+		for n := 1 + rng.Intn(2); n > 0; n-- {
+			c.ReqHdr = append(c.ReqHdr, c17ReqHeaders[rng.Intn(len(c17ReqHeaders))])
+		}
 	}
 	switch c.Kind {
 	case "json":
@@ -479,6 +494,9 @@ func judgeRender(w *core.W, c *renderCase) {
 	if c.Head {
 		post, meth = f.Head, "HEAD"
 		w.Count("head-requests")
+	} else if c.Get {
+		post, meth = f.Get, "GET"
+		w.Count("get-requests")
 	}
 	switch c.Where {
 	case "app":
@@ -545,7 +563,14 @@ func judgeRender(w *core.W, c *renderCase) {
 			f.ServeHTTP(&retSpy{h: http.Header{}}, &http.Request{Method: meth, URL: &url.URL{Path: target}, Header: http.Header{"X-Prime": {"1"}}})
 			w.Count("earlier-response-edited-its-content-type-in-place")
 		}
-		f.ServeHTTP(spy, &http.Request{Method: meth, URL: &url.URL{Path: target, RawQuery: c.Query}, Header: http.Header{"X-Who": {"a"}}})
+		mainHdr := http.Header{"X-Who": {"a"}}
+		for _, h := range c.ReqHdr {
+			mainHdr.Add(h[0], h[1])
+		}
+		if len(c.ReqHdr) > 0 {
+			w.Count("requests-with-range-conditional-or-negotiation-headers")
+		}
+		f.ServeHTTP(spy, &http.Request{Method: meth, URL: &url.URL{Path: target, RawQuery: c.Query}, Header: mainHdr})
 	}()
 	o.status, o.body, o.ctype = spy.status, spy.body, strings.Join(spy.h.Values("Content-Type"), " | ")
 	if c.Overlap && o.pan == nil {
